@@ -727,7 +727,7 @@ struct Brent : Bracket_Method
 	template <class T>
 	double Minimize(T& func)
 	{
-		const int ITMAX	   = 100;
+		const int ITMAX	   = 20000;	  // tol1 can be as small as ZEPS (minimum at 0): a bracket of order 1e3 then needs more than 100 steps (x^4: up to 166 observed). Brent's safeguard allows one golden-section step per ~2*log2(width/tol1) parabolic steps, i.e. of order 4*log2(width/tol1)^2 iterations in the worst case: 2e4 for width/tol1 up to 2^72.
 		const double CGOLD = 0.3819660;
 		const double ZEPS  = std::numeric_limits<double>::epsilon();
 		double a, b, d = 0.0, etemp, fu, fv, fw, fx, p, q, r, tol1, tol2, u, v, w, x, xm, e = 0.0;
